@@ -272,6 +272,9 @@ func firstDiff(a, b *Ex) string {
 					return d
 				}
 			}
+			if a.Cond.Kind == "cmp" && b.Cond.Kind == "cmp" && a.Cond.Op != b.Cond.Op && a.Cond.L.String() == b.Cond.L.String() && a.Cond.R.String() == b.Cond.R.String() {
+				return fmt.Sprintf("a comparison is `%s` in the code and `%s` in the specification (operands: %s , %s)", a.Cond.Op, b.Cond.Op, clip(a.Cond.L.String()), clip(a.Cond.R.String()))
+			}
 			return fmt.Sprintf("condition %s vs %s", clip(a.Cond.String()), clip(b.Cond.String()))
 		}
 		diffs := 0
